@@ -8,6 +8,7 @@ from ..core import FUNC, call_attr, calls_in, const, dotted, is_const, kwarg, no
 from .c09 import waiter_rule, _stored_in_cancelled_table
 
 EXPLANATION = [
+    'C16.queued-waiters: a GATT client request that was waiting for the request semaphore when the bearer closed tests, right after obtaining the semaphore and before sending, a flag that Client.on_disconnection sets; the in-flight request is cancelled there (the server-side twin for indications is in C16.pending-indication).',
     'C16.queue-waiters: DataPacketQueue.flush(handle) sets the drained event of the popped per-connection state on every path on which such a state exists (whatever its in-flight count), so a drain() waiting on a closed connection ends (same rule as C04.drain).',
     'C16.pending-indication: Server.on_disconnection cancels the confirmation future it removes, and the indication coroutine\'s `finally` does not re-create an entry for a bearer that is gone.',
     'C16.device-cleanup: in Device.on_disconnection every subsystem clean-up call (GATT server, ...) is guarded exactly like the emission of the disconnection event: no extra condition such as the link-layer role.',
@@ -350,6 +351,23 @@ def pending_indication(ctx):
     short = sorted(f'{k}: keeps {sorted(want - set(v))}' for k, st in res.items() if not k.startswith('raise') for v in st if want - set(v))
     R.check(len(per_bearer) >= 3 and not short, rule, 'bumble.gatt_server.Server.on_disconnection | every per-bearer table, every path', f'every normal path drops the bearer from {sorted(per_bearer)} and releases the pending confirmation',
             'a path through on_disconnection leaves an entry of the closed bearer behind (or its pending confirmation unreleased), e.g. for a bearer that never subscribed: a forced indication keeps waiting and its slot stays locked', p.loc(od), short[:3])
+    # an indication that was queued behind another one when the bearer went away does not start after the teardown: between
+    # obtaining the per-bearer semaphore and creating its pending confirmation it checks that the bearer still has its entry
+    withs = [w for w in ast.walk(ind) if isinstance(w, ast.AsyncWith)]
+    stores = [n for n in ast.walk(ind) if isinstance(n, ast.Assign) and any(isinstance(t, ast.Subscript) and dotted(t.value) == 'self.pending_confirmations' for t in n.targets) and not (isinstance(n.value, ast.Constant) and n.value.value is None)]
+    okq = bool(withs) and bool(stores)
+    for st_ in stores:
+        w = next((w for w in withs if any(st_ is x for x in ast.walk(w))), None)
+        if w is None:
+            okq = False
+            continue
+        top = st_
+        while getattr(top, '_parent', None) is not w:
+            top = top._parent
+        before = w.body[:w.body.index(top)]
+        okq = okq and any(isinstance(b_, ast.If) and 'indication_semaphores' in norm(b_.test) and b_.body and isinstance(b_.body[-1], (ast.Raise, ast.Return)) for b_ in before)
+    R.check(okq, rule, 'bumble.gatt_server.Server._indicate_single_bearer | queued indication after teardown', 'after obtaining the semaphore the bearer\'s entry is checked before a pending confirmation is created',
+            'an indication queued behind another one proceeds after the bearer was torn down: it re-creates pending_confirmations[bearer] for the closed connection and waits for the whole GATT timeout', p.loc(ind))
     # nothing is re-inserted for a bearer that has been torn down meanwhile
     bad = []
     for t in [x for x in ast.walk(ind) if isinstance(x, ast.Try)]:
@@ -363,6 +381,37 @@ def pending_indication(ctx):
             'the `finally` clause writes pending_confirmations[bearer] after the bearer may have been torn down: an entry for the closed connection reappears in the table', bad[0] if bad else p.loc(ind))
 
 
+def queued_waiters(ctx):
+    """An operation that was queued on a per-bearer semaphore when the bearer went away does not start afterwards."""
+    R, p = ctx.r, ctx.p
+    rule = 'C16.queued-waiters'
+    sr = p.find('bumble.gatt_client.Client.send_request')
+    od = p.find('bumble.gatt_client.Client.on_disconnection')
+    if sr is None or od is None:
+        R.bad(rule, 'bumble.gatt_client.Client.send_request / on_disconnection', 'anchor missing')
+        return
+    withs = [w for w in ast.walk(sr) if isinstance(w, ast.AsyncWith) and any('request_semaphore' in norm(it.context_expr) for it in w.items)]
+    flags = set()
+    ok = len(withs) == 1
+    if ok:
+        w = withs[0]
+        sends = [c for c in calls_in(w) if dotted(c.func) == 'self.send_gatt_pdu']
+        first_send_stmt = None
+        for s_ in w.body:
+            if any(c is x for c in sends for x in ast.walk(s_)):
+                first_send_stmt = s_
+                break
+        before = w.body[:w.body.index(first_send_stmt)] if first_send_stmt is not None else []
+        for b_ in before:
+            if isinstance(b_, ast.If) and b_.body and isinstance(b_.body[-1], (ast.Raise, ast.Return)):
+                flags |= {dotted(x) for x in ast.walk(b_.test) if isinstance(x, ast.Attribute) and dotted(x) and dotted(x).startswith('self.')}
+    set_in_teardown = {dotted(n.targets[0]) for n in walk_local(od) if isinstance(n, ast.Assign) and isinstance(n.value, ast.Constant) and n.value.value is True}
+    R.check(ok and bool(flags & set_in_teardown), rule, 'bumble.gatt_client.Client.send_request | queued request after teardown', f'after obtaining the request semaphore a flag set by on_disconnection ({sorted(flags & set_in_teardown)}) is tested before anything is sent',
+            'a request queued behind another one when the bearer closed proceeds after the teardown: it is sent into the closed connection and waits for the whole GATT timeout (only the in-flight request was cancelled)', p.loc(sr))
+    cancels = [c for c in calls_in(od) if call_attr(c) == 'cancel' and 'pending_response' in norm(c)]
+    R.check(bool(cancels), rule, 'bumble.gatt_client.Client.on_disconnection | in-flight request', 'the in-flight request is cancelled', 'the in-flight request is not cancelled on disconnection', p.loc(od))
+
+
 def queue_waiters(ctx):
     """drain() waiters of a data queue are released when their connection is flushed (same rule as C04.drain)."""
     from . import c04
@@ -371,6 +420,7 @@ def queue_waiters(ctx):
 
 RULES = [
     ('C16.queue-waiters', queue_waiters),
+    ('C16.queued-waiters', queued_waiters),
     ('C16.pending-indication', pending_indication),
     ('C16.device-cleanup', device_cleanup),
     ('C16.smp-sessions', smp_sessions),
